@@ -63,7 +63,7 @@ def configs(tier):
             for mode in ("box", "tails"):
                 if kind == "quadratic" and mode == "tails" and K == 1:
                     continue
-                cfgs.append({"from": "C09", "part": "(2) transformer onto its target interval", "cfg": {"kind": kind, "K": K, "mode": mode, "box": "sym", "timeout": t, "nval": 2}})
+                cfgs.append({"from": "C09", "part": "(2) transformer onto its target interval", "cfg": {"kind": kind, "K": K, "mode": mode, "box": "sym", "timeout": t, "nval": 2, "bughunt": K == 3 and kind != "linear"}})
     # non-default, mutually different floors (min_bin_width != min_bin_height): the heights must still fill the box
     for kind in ("rq", "quadratic", "cubic"):
         cfgs.append({"from": "C09", "part": "(2) transformer onto its target interval", "cfg": {"kind": kind, "K": 2, "mode": "box", "box": "unit", "floors": True, "timeout": t, "nval": 2}})
